@@ -141,6 +141,22 @@ def two_spellings_scenario(viol, stats):
                 return
         finally:
             pr.destroy()
+    # the same for a target several not-yet-existing directory levels below the symlinked directory, built by a rule in an
+    # ancestor that creates the directories itself (the name must be resolved from its longest existing leading part)
+    pr = Project()
+    try:
+        _os.makedirs(pr.path("real"))
+        _os.symlink("real", pr.path("link"))
+        pr.write("default.data.do", 'mkdir -p "$(dirname "$1")"\necho "B $$ x $(date +%s%N)" >>"$VERIF_WORK"; sleep 0.8; echo "E $$ x $(date +%s%N)" >>"$VERIF_WORK"\necho data\n')
+        rs = sched.run_cmds(pr, [["redo", "real/out/gen/x.data"], ["redo", "link/out/gen/x.data"]], timeout=30, stagger=0.3)
+        stats["runs"] += 1
+        over, counts = sched.target_overlaps(sched.parse_work(pr.path(".verif-work")))
+        if over or any(r.rc != 0 or r.timed_out for r in rs):
+            p = write_replay("C06", "two-spellings-deep", dict(kind="impl-monitor", commands=["redo real/out/gen/x.data", "(0.3 s later) redo link/out/gen/x.data"], tree="real/, link -> real, default.data.do (mkdir -p of the target's directory); out/gen does not exist yet",
+                                                               overlaps=over, executions=counts, rcs=[r.rc for r in rs], stderr=[r.err[-600:] for r in rs]))
+            viol.append(Violation("C06", p, "`redo real/out/gen/x.data` beside `redo link/out/gen/x.data` (one file, two missing directory levels): overlapping executions %r, exit statuses %r" % (over, [r.rc for r in rs])))
+    finally:
+        pr.destroy()
 
 
 def run(ctx):
